@@ -46,7 +46,7 @@ PROFILES = {
     "redirorder": dict(directed=True),
     "redirmany": dict(directed=True),
     "partialloss": dict(directed=True, conns=2),
-    "ripen": dict(directed=True, timeout=True, real_timeout_ms=300),
+    "ripen": dict(directed=True, timeout=True, real_timeout_ms=600),
     "leftover": dict(directed=True),
     "redirexpire": dict(directed=True, timeout=True),
     "quit": dict(clients=2, steps=(3, 9), menu=["get", "set", "mget", "ping", "quit"],
@@ -300,7 +300,7 @@ def gen_leftover(rng, sid):
 
 
 def gen_ripen(rng, sid):
-    """Directed, real time (request timeout 300 ms): requests stall on a node while the loop keeps being woken up at
+    """Directed, real time (request timeout 600 ms): requests stall on a node while the loop keeps being woken up at
     intervals shorter than the timeout; when more than the timeout has passed each of them must have got its timeout error,
     in place, and the connection must still work."""
     nodes = ["n1", "n2", "n3"]
